@@ -190,6 +190,10 @@ JobEndClauses(o, a, c, hh) ==
           IN IF Get(hh.outc, <<p.id, cls>>, 0) + 1 > CmdCount(p, cls)
              THEN {"C10.cmdonce"} ELSE {}
         ELSE {})
+  \* ---- C05 at system level: the real queue merge took the longest all-green prefix
+  \cup (IF st = "Merged" /\ ~ faulted /\ ~ hh.faultSeen /\ kind # "ForceMerge" /\ QW(b) # {}
+           /\ ActuallyMerged(b, o) # ExpectedMerge(b, a)
+        THEN {"C05.system"} ELSE {})
   \* ---- C06 (system half)
   \cup (IF kind = "EvalPR" /\ P # {} /\ ~ faulted /\ st \in {"Queued", "SuccessMessage"}
            /\ o.cfg.build_key # "" THEN
